@@ -7,7 +7,7 @@ import math
 from gen import _lg, _r
 
 
-def design(sysstate, rng, iscale=1.0):
+def design(sysstate, rng, iscale=1.0, imin=1e-5):
     """sysstate: final TLC state of a SpecBuild behaviour ({comps, par, ...}); returns
     (list of component descriptions in build order with parent references, designed values)"""
     comps = sysstate["comps"]
@@ -69,7 +69,7 @@ def design(sysstate, rng, iscale=1.0):
             iin[n] = io
             P[n] = dict(vo=vin[n], rs=(abs(vin[n]) - ao) / io if io > 0 else 0.0)
         elif c in ("PLoad", "ILoad", "RLoad"):
-            i = _lg(rng, 1e-5, 0.2) * iscale      # iscale: the same design with every current scaled (resistances follow)
+            i = _lg(rng, imin, 0.2) * iscale      # iscale: the same design with every current scaled (resistances follow)
             iin[n] = i
             P[n] = {"PLoad": dict(pwr=av * i, rt=rt), "ILoad": dict(ii=i, rt=rt), "RLoad": dict(rs=av / i, rt=rt)}[c]
             if c == "ILoad":
